@@ -373,8 +373,12 @@ func (s *style) level(n *node) int {
 		return lvUnary
 	case "postfix":
 		return lvPostfix
-	case "dot", "call", "safecall":
+	case "dot", "call":
 		return lvTail
+	case "safecall":
+		// x(k)?:f takes further tails into its fallback (x(k)?:8.b is even lexed as the
+		// number "8." followed by b): as the base of another tail it is parenthesised
+		return lvPostfix
 	case "arrow":
 		return lvArrow
 	case "let":
